@@ -631,6 +631,14 @@ rec_universe!(
 /// Universe of run `idx`: three in ten runs each for the two plain universes, one each for the
 /// hiding-PCS universes (plain and salted MMCS), two for the custom-AIR batch universe.
 pub fn universe_of(idx: u64) -> &'static str {
+    // diagnostic only (never set by a registered command): pin every run to one universe
+    if let Ok(u) = std::env::var("VERIF_REC_UNIVERSE") {
+        for name in ["U-KB4", "U-BB4", "U-KB4-ZK", "U-KB4-ZKSALT", "U-KB4-CUSTOM", "U-GL2R"] {
+            if name == u {
+                return name;
+            }
+        }
+    }
     match idx % 12 {
         0 | 2 | 4 => "U-KB4",
         1 | 3 | 5 => "U-BB4",
